@@ -45,6 +45,8 @@ partial def lineLoop {Ïƒ : Type} (h : IO.FS.Stream) (out : IO.FS.Stream) (st : Ï
     out.putStrLn (" ".intercalate ("==" :: rest))
     lineLoop h out st step
   | _ =>
+    -- "fd0 <op â€¦>": the harness runs the operation with descriptor 0 free; the model does not depend on descriptor numbers
+    let ws := match ws with | "fd0" :: rest => if rest.isEmpty then ws else rest | _ => ws
     let (st', o) := step st ws
     out.putStrLn o
     lineLoop h out st' step
